@@ -44,6 +44,9 @@ type callGrant struct {
 	// the fetcher's GetById: the dispatch context is cancelled right after the fetch succeeded, i.e. before the worker
 	// looks at its context for the last time ahead of the work function
 	cancelAfter func()
+	// cron / volatile configuration: a cron edit lands between the store's Peek and Pop issued inside this one
+	// MarkAsDispatched call (finer than the call boundaries of scheduler.Repository)
+	splitEdit bool
 }
 
 type sproxy struct {
@@ -162,6 +165,14 @@ func (p *sproxy) MarkAsDispatched(ctx context.Context, id string) error {
 		r.done <- resTerm(err)
 		return err
 	}
+	if g.splitEdit && p.fv != nil {
+		// the harness goroutine waits for r.done meanwhile: the edit runs on this goroutine, inside the call
+		p.fv.beforePop = p.fv.onSplit
+		err := p.inner.MarkAsDispatched(ctx, id)
+		p.fv.beforePop = nil
+		r.done <- resTerm(err)
+		return err
+	}
 	if g.fault == 1 && p.fv != nil {
 		// cron / volatile configuration: the store's Pop fails (if the call gets that far)
 		p.fv.failPop.Store(true)
@@ -277,12 +288,14 @@ type sysRun struct {
 	callNo         int
 	kinds          []string // kind of every faultable call seen before quiescence
 
-	vmode   bool
-	fv      *faultyVolatile
-	scrib   bool
-	ended   bool
-	cg      *cronGen
-	timerCh func() <-chan time.Time
+	vmode     bool
+	splitDone string // the edit that ran inside the current MarkAsDispatched (removed added ok), not yet logged
+	splitEdit bool   // -split-edit (predicate-only suite): cron edits between the Peek and the Pop of one MarkAsDispatched
+	fv        *faultyVolatile
+	scrib     bool
+	ended     bool
+	cg        *cronGen
+	timerCh   func() <-chan time.Time
 }
 
 type stepOutcome struct {
@@ -459,9 +472,16 @@ type panicString string
 type faultyVolatile struct {
 	*cron.CronStore
 	failPop atomic.Bool
+	// -split-edit: run once just before the next Pop, i.e. after the Peek of the same MarkAsDispatched
+	beforePop func()
+	onSplit   func()
 }
 
 func (f *faultyVolatile) Pop(ctx context.Context) (def.Task, error) {
+	if g := f.beforePop; g != nil {
+		f.beforePop = nil
+		g()
+	}
 	if f.failPop.Swap(false) {
 		return def.Task{}, errFault
 	}
@@ -586,6 +606,42 @@ func (s *sysRun) cronEdit() {
 	})
 	s.stats["user:cron-edit"]++
 	s.log("LEdit " + cq.Time(s.now) + " " + natList(removed) + " " + natList(added) + " " + cq.Bool(err == nil))
+}
+
+// splitCronEdit: the edit that lands between Peek and Pop inside MarkAsDispatched: one entry (often the head's) is
+// removed, sometimes another is added
+func (s *sysRun) splitCronEdit() {
+	g := s.cg
+	g.now = s.now
+	var removed, added []int
+	err := g.store.EditTask(func(entries []*cron.Entry) []*cron.Entry {
+		cur := make([]int, 0, len(entries))
+		for _, e := range entries {
+			cur = append(cur, g.eidOf[e])
+		}
+		sort.Ints(cur)
+		var keep []*cron.Entry
+		victim := -1
+		if len(cur) > 0 {
+			victim = cur[s.r.Intn(len(cur))]
+		}
+		for _, eid := range cur {
+			if eid == victim {
+				removed = append(removed, eid)
+			} else {
+				keep = append(keep, g.pool[eid])
+			}
+		}
+		if s.r.Intn(2) == 0 || len(keep) == 0 {
+			eid := g.newEntry(-1)
+			added = append(added, eid)
+			keep = append(keep, g.pool[eid])
+		}
+		return keep
+	})
+	s.stats["user:cron-edit-between-peek-and-pop"]++
+	// logged together with the call it happened in (label XSplitMark of VSplit.v)
+	s.splitDone = natList(removed) + " " + natList(added) + " " + cq.Bool(err == nil)
 }
 
 func (s *sysRun) fail(msg string) {
@@ -838,6 +894,9 @@ func (s *sysRun) progress() {
 			g.cancelAfter = s.curCancel
 			s.stats["driver:cancel-between-fetch-and-work"]++
 		}
+		if s.splitEdit && req.kind == "markdisp" && g.fault == 0 && s.r.Intn(2) == 0 {
+			g.splitEdit = true
+		}
 		req.grant <- g
 		ret := <-req.done
 		s.lastKind, s.lastOk = req.kind, !strings.Contains(ret, "RErr")
@@ -854,7 +913,14 @@ func (s *sysRun) progress() {
 			// the core repository failed without effect: the wrapper still ran its timer hook
 			f = "FBeforeHook"
 		}
-		s.log("LCall " + req.term + " " + f + " " + cq.Bool(g.hfault) + " " + ret)
+		if s.splitDone != "" {
+			// the call reached the store's Pop and the edit ran just before it
+			s.log("XSplitMark " + cq.Time(s.now) + " " + cq.Str(s.lastCallId) + " " + s.splitDone + " " + ret)
+			s.splitDone = ""
+			s.stats["driver:markdisp-with-edit-between-peek-and-pop:"+map[bool]string{true: "error", false: "ok"}[strings.Contains(ret, "RErr")]]++
+		} else {
+			s.log("LCall " + req.term + " " + f + " " + cq.Bool(g.hfault) + " " + ret)
+		}
 		if req.kind == "timerch" {
 			s.inSelect = true
 		}
@@ -1189,6 +1255,7 @@ func sysMain(args []string) {
 	out := fs.String("out", "", "output .v")
 	statsOut := fs.String("stats", "", "stats json")
 	coreFaults := fs.Bool("core-faults", false, "with -faults: a failing MarkAsDispatched is the CORE repository's failure (before or after taking effect), seen by the observable wrapper as well; there is no model for this placement: only the trace predicates are evaluated")
+	splitEdit := fs.Bool("split-edit", false, "volatile configuration: cron edits land between the Peek and the Pop that one MarkAsDispatched issues (sub-call interleaving; no model at that granularity: predicate-only)")
 	vfaults := fs.Bool("vfaults", false, "volatile configuration: the store's Pop sometimes fails transiently inside MarkAsDispatched (no model for faults there: predicate-only)")
 	impl := fs.String("impl", "inmem", "core repository under the hook timer: inmem | ent (ent: predicate-only suites)")
 	cancelInFetch := fs.Bool("cancel-in-fetch", false, "the dispatch context is sometimes cancelled right after the fetcher's GetById succeeded (the run then ends cancelled without starting); no model label exists for that: only the trace predicates are evaluated")
@@ -1257,6 +1324,10 @@ func sysMain(args []string) {
 			s.planned, s.plan = true, jb.plan
 		} else if *volatile {
 			s = newVSysRun(r, stats, *scribble, *vfaults)
+			s.splitEdit = *splitEdit
+			if s.fv != nil {
+				s.fv.onSplit = s.splitCronEdit
+			}
 		} else {
 			s = newSysRunOn(*impl, r, stats, *faults)
 			s.userHookFaults = *userHookFaults
@@ -1274,6 +1345,18 @@ func sysMain(args []string) {
 		if *volatile {
 			s.labels[0] = strings.Replace(s.labels[0], "ROWS", "["+strings.Join(s.cg.rows, ";\n    ")+"]", 1)
 			c = " (mkVC [" + strings.Join(s.cg.tbl, ";") + "]\n  [" + strings.Join(s.labels, ";\n  ") + "])"
+			if *splitEdit {
+				// extended labels of VSplit.v: every ordinary label wrapped, the split calls as they are
+				xl := make([]string, len(s.labels))
+				for i, l := range s.labels {
+					if strings.HasPrefix(l, "XSplitMark ") {
+						xl[i] = l
+					} else {
+						xl[i] = "XL (" + l + ")"
+					}
+				}
+				c = " (mkXC [" + strings.Join(s.cg.tbl, ";") + "]\n  [" + strings.Join(xl, ";\n  ") + "])"
+			}
 		}
 		cases = append(cases, c)
 		hashes = append(hashes, shortHash(c))
@@ -1286,7 +1369,10 @@ func sysMain(args []string) {
 		}
 	}
 	var b strings.Builder
-	if *volatile {
+	if *volatile && *splitEdit {
+		b.WriteString("From GK Require Import VSplit SysCheck.\nOpen Scope string_scope.\nOpen Scope list_scope.\nOpen Scope Z_scope.\n")
+		b.WriteString("Definition cases : list xcase := [\n" + strings.Join(cases, ";\n") + "\n].\n")
+	} else if *volatile {
 		b.WriteString("From GK Require Import VSys SysCheck.\nOpen Scope string_scope.\nOpen Scope list_scope.\nOpen Scope Z_scope.\n")
 		b.WriteString("Definition cases : list vcase := [\n" + strings.Join(cases, ";\n") + "\n].\n")
 	} else {
